@@ -51,3 +51,19 @@ Ltac vred := cbn [v2x v2y v3x v3y v3z lr2p lr2v lr3p lr3v pl_n pl_o pl_k pl_x pl
                   a2_c a2_r a2_a1 a2_a2 a3_plane a3_arc2d sp_c sp_r
                   co_vertex co_axis co_angle cy_c cy_axis cy_r pg_vertices f3_boundary f3_holes f3_plane
                   pl2_vertices pl2_interp pl3_vertices pl3_interp m2_vertices m2_faces m3_vertices m3_faces fst snd] in *.
+
+(* boolean comparisons respect == *)
+Global Instance Qle_bool_proper : Proper (Qeq ==> Qeq ==> eq) Qle_bool.
+Proof.
+  intros a b E c d F. destruct (Qle_bool a c) eqn:X; symmetry.
+  - apply Qle_bool_iff. rewrite <- E, <- F. apply Qle_bool_iff. exact X.
+  - apply Qle_bool_false_iff. rewrite <- E, <- F. apply Qle_bool_false_iff. exact X.
+Qed.
+Global Instance Qlt_bool_proper : Proper (Qeq ==> Qeq ==> eq) Qlt_bool.
+Proof. intros a b E c d F. unfold Qlt_bool. rewrite E, F. reflexivity. Qed.
+Global Instance Qeq_bool_proper : Proper (Qeq ==> Qeq ==> eq) Qeq_bool.
+Proof.
+  intros a b E c d F. destruct (Qeq_bool a c) eqn:X; symmetry.
+  - apply Qeq_bool_iff. rewrite <- E, <- F. apply Qeq_bool_iff. exact X.
+  - apply Qeq_bool_false_iff. rewrite <- E, <- F. apply Qeq_bool_false_iff. exact X.
+Qed.
